@@ -4,6 +4,10 @@
   Model of `mitmproxy.addons.clientplayback.ClientPlayback` (check, start_replay, stop_replay, the
   playback loop with client_replay_concurrency = 1) and of `ReplayHandler.done` being set by the
   response / error hook.  `asyncio.Queue` is a FIFO list (put at the tail, get at the head — trusted);
+  The option `client_replay_concurrency` is part of the state (`seq`: it is not -1) and can be switched at
+  any time (`setopt`); the playback loop reads it when it DISPATCHES a dequeued flow (`take`): sequential →
+  the loop awaits the replay (`inflight`), otherwise the replay runs as a background task (`bg`) and the
+  loop goes on.
   `Flow.backup()` / `Flow.revert()` are transcribed from mitmproxy/flow.py: `backup` keeps an existing
   backup, `revert` restores it and clears it.  A flow's state is split into what `check` reads
   (`Attr`, fixed) and what replay and the user change (`Cur`: response / error / is_replay and an edit
@@ -49,13 +53,23 @@ inductive Ev where
   | fin (t : Nat)     -- its response/error hook completed (ReplayHandler.done set)
   deriving DecidableEq, Repr
 
+/-- everything that happens, in both modes: a replay is started (with the option value read at dispatch) / has
+    finished -/
+inductive GEv where
+  | gstart (t : Nat) (sequential : Bool)
+  | gfin (t : Nat)
+  deriving DecidableEq, Repr
+
 structure St where
   attrs : List Attr
   fs : List FState
   queue : List Entry
   inflight : Option (Entry × Phase)
   next : Nat
-  log : List Ev              -- newest first
+  log : List Ev              -- newest first; the replays the loop awaited (sequential mode)
+  seq : Bool                 -- client_replay_concurrency != -1
+  bg : List (Entry × Phase)  -- replays running as background tasks (concurrency -1)
+  glog : List GEv            -- newest first; every replay of either mode
   deriving DecidableEq, Repr
 
 inductive Op where
@@ -65,6 +79,9 @@ inductive Op where
   | send                     -- the request is written to the server
   | finish (response : Bool) -- response hook (true) / error hook (false) completes
   | edit (i : Nat)           -- the user edits flow i (Flow.backup(), then a change)
+  | setopt (sequential : Bool)       -- client_replay_concurrency is set to 1 (true) / -1 (false)
+  | bsend (t : Nat)                  -- the request of background replay t is written to the server
+  | bfinish (t : Nat) (response : Bool)  -- the response / error hook of background replay t completes
   deriving DecidableEq, Repr
 
 /-- `f == self.inflight` -/
@@ -73,12 +90,15 @@ def isInflight (s : St) (i : Nat) : Bool :=
   | some (e, _) => e.idx == i
   | none => false
 
+/-- the flow is being replayed by a background task (`flow.live` is set while a replay runs) -/
+def inBg (s : St) (i : Nat) : Bool := s.bg.any (fun p => p.1.idx == i)
+
 /-- ClientPlayback.check: none = replayable, some n = the n-th refusal -/
 def check (s : St) (i : Nat) : Option Nat :=
   match s.attrs[i]? with
   | none => some 0
   | some a =>
-    if a.live || isInflight s i then some 1
+    if a.live || isInflight s i || inBg s i then some 1
     else if a.intercepted then some 2
     else if !a.isHttp then some 6
     else if !a.hasReq then some 3
@@ -128,14 +148,20 @@ def finishFlow (fs : List FState) (i : Nat) (response : Bool) : List FState :=
 
 /-- a still-queued flow is also the one in flight: `revert()` then rewrites the state of the running replay
     (and raises on its open server connection) — finding F-C53b; outside the modelled domain -/
-def stopBlocked (s : St) : Bool := s.queue.any (fun e => isInflight s e.idx)
+def stopBlocked (s : St) : Bool := s.queue.any (fun e => isInflight s e.idx || inBg s e.idx)
 
 def step (s : St) : Op → Option St
   | .start idxs => some (startReplay s idxs)
   | .stop => if stopBlocked s then none else some (stopReplay s)
   | .take =>
     match s.inflight, s.queue with
-    | none, e :: rest => some { s with inflight := some (e, .taken), queue := rest, log := .start e.ticket :: s.log }
+    | none, e :: rest =>
+      -- `if ctx.options.client_replay_concurrency == -1` is evaluated here, after the flow has been dequeued
+      if s.seq then
+        some { s with inflight := some (e, .taken), queue := rest, log := .start e.ticket :: s.log,
+                      glog := .gstart e.ticket true :: s.glog }
+      else
+        some { s with queue := rest, bg := s.bg ++ [(e, .taken)], glog := .gstart e.ticket false :: s.glog }
     | _, _ => none
   | .send =>
     match s.inflight with
@@ -143,9 +169,20 @@ def step (s : St) : Op → Option St
     | _ => none
   | .finish r =>
     match s.inflight with
-    | some (e, _) => some { s with inflight := none, fs := finishFlow s.fs e.idx r, log := .fin e.ticket :: s.log }
+    | some (e, _) => some { s with inflight := none, fs := finishFlow s.fs e.idx r, log := .fin e.ticket :: s.log,
+                                     glog := .gfin e.ticket :: s.glog }
     | none => none
   | .edit i => some { s with fs := editFlow s.fs i }
+  | .setopt b => some { s with seq := b }
+  | .bsend t =>
+    if s.bg.any (fun p => p.1.ticket == t && p.2 == .taken) then
+      some { s with bg := s.bg.map (fun p => if p.1.ticket == t && p.2 == .taken then (p.1, .sent) else p) }
+    else none
+  | .bfinish t r =>
+    match s.bg.find? (fun p => p.1.ticket == t) with
+    | some p => some { s with bg := s.bg.filter (fun q => !(q.1.ticket == t)), fs := finishFlow s.fs p.1.idx r,
+                              glog := .gfin t :: s.glog }
+    | none => none
 
 def run (s : St) : List Op → Option St
   | [] => some s
@@ -154,7 +191,7 @@ def run (s : St) : List Op → Option St
     | none => none
 
 def init (attrs : List Attr) (fs : List FState) : St :=
-  { attrs, fs, queue := [], inflight := none, next := 0, log := [] }
+  { attrs, fs, queue := [], inflight := none, next := 0, log := [], seq := true, bg := [], glog := [] }
 
 def Reach (attrs : List Attr) (fs : List FState) (s : St) : Prop := ∃ os, run (init attrs fs) os = some s
 
@@ -192,20 +229,50 @@ def finTickets : List Ev → List Nat
 
 /-- the operations of the playback loop and of the server side (no new submissions, stops or edits) -/
 def isLoopOp : Op → Bool
-  | .take | .send | .finish _ => true
+  | .take | .send | .finish _ | .bsend _ | .bfinish _ _ => true
   | _ => false
 
 /-- variant: work left for the playback loop — three units per queued flow (take, send, finish), two for a
     replay that has been taken, one for a replay whose request has been sent -/
+def phaseWork : Phase → Nat
+  | .taken => 2
+  | .sent => 1
+
+def bgWork : List (Entry × Phase) → Nat
+  | [] => 0
+  | p :: ps => phaseWork p.2 + bgWork ps
+
 def variant (s : St) : Nat :=
   3 * s.queue.length +
     (match s.inflight with
      | none => 0
      | some (_, .taken) => 2
-     | some (_, .sent) => 1)
+     | some (_, .sent) => 1) + bgWork s.bg
 
 /-- nothing left to replay -/
 def quiescent (s : St) : Bool := s.inflight.isNone && s.queue.isEmpty
+
+/-- reads the global log oldest-first: while a replay that was started with the option at 1 has not finished, no
+    other replay is started; the result is that replay's ticket, if one is open -/
+def seqStatus : List GEv → Option (Option Nat)
+  | [] => some none
+  | e :: rest =>
+    match seqStatus rest, e with
+    | some none, .gstart t true => some (some t)
+    | some none, .gstart _ false => some none
+    | some (some t), .gfin t' => if t = t' then some none else some (some t)
+    | some none, .gfin _ => some none
+    | _, _ => none
+
+def gstartTickets : List GEv → List Nat
+  | [] => []
+  | .gstart t _ :: rest => t :: gstartTickets rest
+  | _ :: rest => gstartTickets rest
+
+def gfinTickets : List GEv → List Nat
+  | [] => []
+  | .gfin t :: rest => t :: gfinTickets rest
+  | _ :: rest => gfinTickets rest
 
 def replayable (a : Attr) : Bool :=
   !a.live && !a.intercepted && a.isHttp && a.hasReq && a.hasContent && !a.ws
